@@ -9,7 +9,7 @@ from pyvc import library as L
 from pyvc.values import PyExc, Unsupported, to_real, to_int
 from contracts.c04 import build_rect, _valid
 
-FUNCS = ['mulgrids.mulgrid.get_missing_connections', 'mulgrids.mulgrid.get_orphans', 'mulgrids.mulgrid.connects', 'mulgrids.column.is_against', 'mulgrids.mulgrid.delete_column', 'mulgrids.mulgrid.delete_node', 'mulgrids.mulgrid.delete_connection', 'mulgrids.mulgrid.delete_layer',
+FUNCS = ['mulgrids.mulgrid.copy_layers_from', 'mulgrids.mulgrid.clear_layers', 'mulgrids.mulgrid.add_well', 'mulgrids.mulgrid.delete_well', 'mulgrids.mulgrid.rotate', 'geometry.linear_trans2.rotation', 'geometry.linear_trans2.__call__', 'mulgrids.mulgrid.get_missing_connections', 'mulgrids.mulgrid.get_orphans', 'mulgrids.mulgrid.connects', 'mulgrids.column.is_against', 'mulgrids.mulgrid.delete_column', 'mulgrids.mulgrid.delete_node', 'mulgrids.mulgrid.delete_connection', 'mulgrids.mulgrid.delete_layer',
          'mulgrids.mulgrid.rename_column', 'mulgrids.mulgrid.rename_layer', 'mulgrids.mulgrid.split_column', 'mulgrids.mulgrid.add_node', 'mulgrids.mulgrid.add_column',
          'mulgrids.mulgrid.add_connection', 'mulgrids.mulgrid.add_layer', 'mulgrids.mulgrid.translate', 'mulgrids.mulgrid.refine', 'mulgrids.mulgrid.refine_layers',
          'mulgrids.mulgrid.decompose_columns', 'mulgrids.mulgrid.reduce', 'mulgrids.mulgrid.snap_columns_to_layers', 'mulgrids.mulgrid.snap_columns_to_nearest_layers',
@@ -135,6 +135,24 @@ def cols(geo, idx):
     return [geo.fields['columnlist'][k] for k in idx]
 
 
+def _other_layers(e, nz):
+    """Another real geometry whose layer structure is copied: nz layers of independent symbolic thicknesses from a symbolic top."""
+    m = e.load_module('mulgrids').globals
+    dz = [e.sym_real('cdz%d' % k) for k in range(nz)]
+    for v in dz:
+        e.assume(v > 0)
+    return e.call(e.getattr(e.call(m['mulgrid'], []), 'rectangular'), [[1], [1], dz], {'origin': [0, 0, e.sym_real('coz')]})
+
+
+def _wells(e, g):
+    m = e.load_module('mulgrids').globals
+    for nm in ('w   1', 'w   2'):
+        w = e.call(m['well'], [nm, [NVec([e.sym_real(nm[-1] + 'x%d' % k), e.sym_real(nm[-1] + 'y%d' % k), e.sym_real(nm[-1] + 'z%d' % k)]) for k in range(2)]])
+        e.call(e.getattr(g, 'add_well'), [w])
+    e.call(e.getattr(g, 'add_well'), [e.call(m['well'], ['w   1', [NVec([0, 0, 0])]])])      # same name again: no new well
+    e.call(e.getattr(g, 'delete_well'), ['w   1'])
+
+
 OPS = {
     'delete_column':      lambda e, g, a: e.call(e.getattr(g, 'delete_column'), [g.fields['columnlist'][a[0]].fields['name']]),
     'rename_column':      lambda e, g, a: e.call(e.getattr(g, 'rename_column'), [g.fields['columnlist'][a[0]].fields['name'], ' zz']),
@@ -152,6 +170,9 @@ OPS = {
     'reduce':             lambda e, g, a: e.call(e.getattr(g, 'reduce'), [cols(g, a)]),
     'delete_layer':       lambda e, g, a: e.call(e.getattr(g, 'delete_layer'), [g.fields['layerlist'][a[0]].fields['name']]),
     'translate':          lambda e, g, a: e.call(e.getattr(g, 'translate'), [NVec([e.sym_real('tx'), e.sym_real('ty'), e.sym_real('tz')])]),
+    'copy_layers_from':   lambda e, g, a: e.call(e.getattr(g, 'copy_layers_from'), [_other_layers(e, a[0])]),
+    'wells':              lambda e, g, a: _wells(e, g),
+    'rotate90':           lambda e, g, a: e.call(e.getattr(g, 'rotate'), [90 * a[0], NVec([e.sym_real('rcx'), e.sym_real('rcy')])]),
     'snap_to_layers':     lambda e, g, a: e.call(e.getattr(g, 'snap_columns_to_layers'), [e.sym_real('snap', 0)]),
     'snap_to_nearest':    lambda e, g, a: e.call(e.getattr(g, 'snap_columns_to_nearest_layers'), []),
     'delete_connection':  lambda e, g, a: e.call(e.getattr(g, 'delete_connection'), [tuple(c.fields['name'] for c in g.fields['connectionlist'][a[0]].fields['column'])]),
@@ -177,7 +198,7 @@ def p_edit(e, arg):
             e.fail('post:operation_completes' + tag, 'raises %s: %s' % (ex.cls, ex.msg)); return
         e.prove(True, 'post:operation_completes' + tag)
         dom = None
-        if op not in NOT_VALID and op != 'reduce':
+        if op not in NOT_VALID and op not in ('reduce', 'rotate90'):
             t = [to_real(geo.fields['nodelist'][0].fields['pos'].items[k]) - to_real(S['org'][k]) for k in (0, 1)] if op == 'translate' else [0, 0]
             dom = (S['org'][0] + t[0], S['org'][0] + sum(S['dx']) + t[0], S['org'][1] + t[1], S['org'][1] + sum(S['dy']) + t[1])
         post = wf(e, geo, valid_mesh=op not in NOT_VALID, domain=dom)
@@ -209,7 +230,7 @@ def p_edit(e, arg):
                 e.fail('post:missing_connections_and_orphans_report_exactly_what_is_missing' + tag, 'missing %r reported %r; orphans %r reported %r' % (sorted(want_missing), sorted(got_missing), sorted(want_orphans), sorted(got_orphans)))
         except PyExc as ex:
             e.fail('post:missing_connections_and_orphans_report_exactly_what_is_missing' + tag, 'raises %s: %s' % (ex.cls, ex.msg))
-        if op in ('refine', 'refine_bisect', 'refine_bisect_x', 'refine_bisect_edge', 'refine_edge', 'split_column', 'decompose_columns', 'refine_layers', 'rename_column', 'rename_swap', 'rename_layer', 'translate'):
+        if op in ('refine', 'refine_bisect', 'refine_bisect_x', 'refine_bisect_edge', 'refine_edge', 'split_column', 'decompose_columns', 'refine_layers', 'rename_column', 'rename_swap', 'rename_layer', 'translate', 'rotate90'):
             e.prove(_valid(e, plan_area(e, geo) == area0), 'post:total_plan_area_unchanged' + tag)
             if op != 'translate':
                 e.prove(_valid(e, rock_volume(e, geo) == vol0), 'post:total_rock_volume_unchanged' + tag)
@@ -253,7 +274,7 @@ EDITS = [((2, 2, 2, 0), 1, 'delete_column', (0,)), ((2, 2, 2, 1), 1, 'delete_col
          ((2, 2, 2, 0), 1, 'rename_layer', (1,)), ((2, 2, 2, 0), 1, 'split_column', (0, 0)), ((2, 2, 2, 0), 1, 'split_column', (3, 1)),
          ((2, 2, 2, 0), 1, 'refine', ()), ((2, 2, 2, 0), 1, 'refine', (0,)), ((3, 1, 2, 0), 0, 'refine', (0,)), ((3, 2, 2, 0), 0, 'refine', (0, 1)), ((2, 2, 2, 0), 1, 'refine_bisect', (0,)), ((2, 2, 2, 0), 1, 'refine_bisect_x', (0, 2)), ((3, 3, 2, 0), 0, 'refine_bisect_edge', (4, 5, 3)), ((3, 2, 2, 0), 1, 'refine_bisect_edge', (1, 2, 0)), ((4, 3, 2, 0), 0, 'refine_edge', (2, 5, 6, 4, 7, 1, 2, 9, 10)),
          ((2, 2, 3, 0), 1, 'refine_layers', (1, 2)), ((2, 2, 3, 1), 1, 'refine_layers', (2, 3, 3)), ((2, 2, 2, 0), 1, 'decompose_columns', ()), ((2, 2, 2, 0), 1, 'reduce', (0, 1)),
-         ((2, 2, 3, 0), 1, 'delete_layer', (3,)), ((2, 2, 3, 0), 1, 'delete_layer', (1,)), ((2, 2, 2, 0), 1, 'translate', ()), ((2, 2, 3, 0), 2, 'snap_to_layers', ()),
+         ((2, 2, 3, 0), 1, 'delete_layer', (3,)), ((2, 2, 3, 0), 1, 'delete_layer', (1,)), ((2, 2, 2, 0), 1, 'translate', ()), ((2, 2, 2, 0), 1, 'rotate90', (1,)), ((2, 2, 2, 0), 1, 'copy_layers_from', (3,)), ((2, 1, 3, 1), 2, 'copy_layers_from', (2,)), ((2, 2, 2, 0), 1, 'wells', ()), ((3, 2, 2, 0), 1, 'rotate90', (2,)), ((2, 2, 3, 0), 2, 'snap_to_layers', ()),
          ((2, 2, 3, 0), 2, 'snap_to_nearest', ()), ((2, 2, 2, 0), 1, 'delete_connection', (0,))]
 
 PROGRAMS = [('p_edit', x) for x in EDITS]
